@@ -264,6 +264,30 @@ def run(ctx):
             check_decode(res, c, img + b"!", bucket=("img", cap))
         res.count("fixstr_caps")
 
+    # ---- (e2) Logix string structures with pad bytes after DATA (capacity not a multiple of 4), incl. LEN > capacity images --------------
+    for cap in [1, 2, 3, 5, 6, 7, 20, 82, 83, 481] if quick else list(range(1, 130)) + [480, 481, 482, 483]:
+        work += 1
+        if not ctx.mine(work):
+            continue
+        pad = (-(4 + cap)) % 4
+        try:
+            lib = p.FixedSizeString(cap, p.UDINT, pad)
+        except TypeError:
+            res.dont_care("FixedSizeString-without-padding-parameter")
+            continue
+        c = tg.TypeCase(f"FixedSizeString({cap},UDINT,pad={pad})", lib, ("lstr", 4 + cap + pad, cap))
+        for n in sorted({0, 1, cap - 1, cap, cap + 1, cap + pad, cap + 9}):
+            if n < 0:
+                continue
+            sv = tg.rand_str(rng, n, 1)
+            enc = check_encode(res, c, sv, bucket=("lt" if n < cap else "eq" if n == cap else "gt", cap))
+            if enc is not None:
+                check_decode(res, c, enc + b"\x7f", bucket=("rt", cap))
+        for ln in (0, 1, cap, cap + 1, cap + pad, cap + 3, 4 * cap + 40, 0x7FFFFFFF):
+            img = ln.to_bytes(4, "little") + bytes(rng.randrange(1, 256) for _ in range(cap + pad))
+            check_decode(res, c, img + b"!", bucket=("img", cap, min(ln, cap + 4)))
+        res.count("padded_fixstr_caps")
+
     # ---- (f) generated composite layouts ---------------------------------------------------------
     ntypes = 250 if quick else 2500
     for i in range(ntypes):
